@@ -408,7 +408,11 @@ impl HttpServer {
                 // The connection is also marked for removal when encountering `EPOLLERR`,
                 // since this is an "error condition happened on the associated file
                 // descriptor", according to the `epoll_ctl` man page.
-                if e.event_set().contains(epoll::EventSet::ERROR)
+                // A connection that is already closed (e.g. after a failed write) and is only
+                // kept until its in-flight requests are answered has nothing left to read or
+                // write, so any event on it is handled the same way.
+                if client_connection.state == ClientConnectionState::Closed
+                    || e.event_set().contains(epoll::EventSet::ERROR)
                     || e.event_set().contains(epoll::EventSet::HANG_UP)
                     || e.event_set().contains(epoll::EventSet::READ_HANG_UP)
                 {
